@@ -396,6 +396,15 @@ pub fn jobs(prop: &str, tier: &str) -> Vec<Box<dyn JobT>> {
             c.n = if q { 3 } else { 4 };
             c.label = format!("lwwreg reused markers Any+merge n<={}", c.n);
             j.push(job::<Lww>(c, ValidateMerge { misuse: true }));
+            if !q {
+                // four replicas (actor ids 0,0,1,2): the two misused replicas can hold *concurrent* entry clocks,
+                // the case in which Map::validate_merge does descend into the nested values
+                let mut c4 = mis(plan_cfg::<MapOr>("", q, true, Disc::Causal, false), vec![cmd(mo::ADD, 0, 0), cmd(mo::ADD, 0, 1), cmd(mo::ADD, 0, 2)], 4);
+                c4.actor_map = vec![0, 0, 1, 2];
+                c4.actors = 4;
+                c4.label = "map_orswot one actor id hosted on two of four replicas (concurrent entry clocks reachable), all pairs, n<=4".into();
+                j.push(job::<MapOr>(c4, ValidateMerge { misuse: true }));
+            }
         }
         "C18" => {
             // every clock of the grid (3 actors x counters 0..=2: below, above and concurrent with the state's clock)
